@@ -98,15 +98,18 @@ def rotate_order(ck, S, rt, g, closes, renames, comp, clean, opens):
     ok = g.dominated(rn, {cl}) and not g.can_reach(rn, cl)
     ck.ob("C10-O1", sitestr(rt, renames[0]), ok, "the active file is closed (flushed) before it is renamed" if ok else "the file is renamed while still open/unflushed", key="rotate|rename-before-close")
     is_rn = value_pred(rt, renames[0])
-    keep_ok = g.projector(atom_eq(is_rn, True))
-    keep_fail = g.projector(atom_eq(is_rn, False))
+    # QFile::rename / QDir::rename answer true on success; rename(2) / std::rename answer 0 on success
+    raw_rn = strip_tmpl(renames[0].get("callee") or "") in ("rename", "std::rename")
+    keep_ok = g.projector(atom_eq(is_rn, not raw_rn))
+    keep_fail = g.projector(atom_eq(is_rn, raw_rn))
     if comp:
         cs = g.site_of(comp[0])
         a = cs not in g.live(keep_fail)
         b = g.dominated(cs, {rn})
         ck.ob("C10-O1", sitestr(rt, comp[0]), a and b, "compression runs only after a successful rename" if (a and b) else "compression can run although the rename failed (it would compress and delete a stale file of that name)", key="rotate|compress-after-failed-rename")
+        from rules.c05 import strip_path_encoding
         arg = deref_local(rt, comp[0]["args"][0])
-        dst = deref_local(rt, renames[0]["args"][1])
+        dst = strip_path_encoding(rt, renames[0]["args"][1])
         okarg = arg.get("id") == dst.get("id")
         ck.ob("C10-O1", sitestr(rt, comp[0]), okarg, "the file that is compressed is the rename target" if okarg else "compressFile(%s) but the rename target is %s" % (describe(arg), describe(dst)), key="rotate|compress-other-file")
     if clean:
